@@ -310,9 +310,18 @@ def run(ctx):
         # field names users may pick: leading / trailing / doubled underscores, acronyms, capitals
         names = [rng.choice(['f%d', '_f%d', 'f%d_', 'f__%d', 'player_UUID%d', 'F%d', 'type_%d_']) % k for k in range(len(fields))]
 
+        groups, k_ = [], 0
+        while k_ < len(fields):
+            g_ = rng.choice([1, 1, 2, 3])
+            groups.append(list(range(k_, min(len(fields), k_ + g_))))
+            k_ += g_
+        if rng.random() < 0.2:
+            groups.insert(rng.randrange(len(groups) + 1), [])        # an empty placeholder entry
+
         class UserPacket(Packet):
             id = 0x77
-            definition = [{names[k]: T} for k, (_, T) in enumerate(fields)]
+            # an entry of a definition may declare several fields (a dict with more than one item)
+            definition = (lambda ents: ents)([dict((names[k], fields[k][1]) for k in grp) for grp in groups])
         vals = [gen_value(rng, tok, cx, boundary=(i % 2 == 0)) for tok, _ in fields]
         p = UserPacket(cx)
         for k, (pyv, _, _) in enumerate(vals):
